@@ -81,3 +81,34 @@ Qed.
 End Replay.
 
 Print Assumptions replay_sound.
+
+(** the three-valued checker reports "reached" exactly when [replay] says true *)
+Lemma replay3_body_rel comp tq tt s :
+  match replay3_body comp tq tt s, replay_body comp tq tt s with
+  | inl a, inl b => a = b
+  | inr (RpReached _), inr true => True
+  | inr (RpStopped _), inr false => True
+  | _, _ => False
+  end.
+Proof.
+  destruct s as [[q t] n]. unfold replay3_body, replay_body.
+  destruct ((0 <? n) && (q =? tq) && tape_eqb t tt); [exact I|].
+  destruct (cp_get comp (q, scan t)) as [[[color sh] q']|]; [|exact I].
+  destruct ((q =? q') && at_edge t sh); [exact I|reflexivity].
+Qed.
+
+Theorem replay3_reached comp q t tq tt fuel n :
+  replay3 comp q t tq tt fuel = RpReached n -> replay comp q t tq tt fuel = true.
+Proof.
+  unfold replay3, replay. rewrite !for_upto_iter.
+  generalize (N.to_nat fuel) as m. generalize (q, t, 0) as s.
+  intros s m. revert s. induction m as [|m IH]; intros s H; [discriminate|].
+  cbn [iter_nat] in *. pose proof (replay3_body_rel comp tq tt s) as R.
+  destruct (replay3_body comp tq tt s) as [a|r3] eqn:E3.
+  - destruct (replay_body comp tq tt s) as [b|rb] eqn:Eb; [|destruct rb; contradiction].
+    subst b. apply IH. exact H.
+  - destruct (replay_body comp tq tt s) as [b|rb] eqn:Eb.
+    + destruct r3; contradiction.
+    + destruct r3 as [c|c|]; destruct rb; try contradiction; try discriminate; reflexivity.
+Qed.
+Print Assumptions replay3_reached.
